@@ -28,6 +28,15 @@ var idleStates = map[string]bool{
 // contains one of them does not keep the process busy.
 var Tolerated []string
 
+// TimerWaits lists stack substrings of goroutines that are parked in a select/receive on a
+// timer and will wake by themselves: such a goroutine keeps the process busy although its
+// state looks parked (rate limiter waits, retry/backoff loops).
+var TimerWaits = []string{
+	"golang.org/x/time/rate.(*Limiter).wait",
+	"istio.io/istio/pkg/backoff.",
+	"istio.io/istio/pkg/test/util/retry.",
+}
+
 // Snapshot reports whether the process is idle right now, the number of goroutines seen and,
 // if busy, the first goroutine that keeps it busy.
 func Snapshot(buf *[]byte) (idle bool, n int, why string) {
@@ -65,6 +74,15 @@ func parse(dump string) (bool, int, string) {
 			state = state[:j]
 		}
 		if idleStates[state] {
+			timer := false
+			for _, t := range TimerWaits {
+				if strings.Contains(b, t) {
+					timer = true
+				}
+			}
+			if timer && relevant {
+				return false, n, "timer wait\n" + b
+			}
 			continue
 		}
 		if !relevant && (state == "syscall" || state == "IO wait" || state == "sleep") {
